@@ -22,7 +22,8 @@ def main():
     for p in props:
         pid = p["id"]
         path = os.path.join(ROOT, "checks", pid.lower() + ".py")
-        if not os.path.exists(path) or pid in overrides:
+        ready = set(open(os.path.join(ROOT, "tools", "ready.txt")).read().split())
+        if not os.path.exists(path) or pid in overrides or pid not in ready:
             na.append({"property_id": pid, "reason": overrides.get(pid, NOT_BUILT)})
             continue
         m = importlib.import_module("checks." + pid.lower()).META
